@@ -112,12 +112,35 @@ class C09(core.PropertyCheck):
             uses = [[rng.choice([r["name"] for r in reps]), rng.choice(["block", "block", "inline"])] for _ in range(rng.randint(1, 4))]
             yield {"kind": "repl", "reps": reps, "uses": uses, "page_label": rng.choice([None, "rep-a", "rep-b"]),
                    "page_footrefs": rng.randint(0, 2), "twice": rng.random() < 0.3}
+        for _ in range(budget // 8):
+            # headings that carry id-bearing inline nodes (footnote references, inline targets), with and without a label in front,
+            # and references to those labels from the page itself and from another page: every copy of such a title that ends up in
+            # built output (the label's title, the text of a link) must not repeat an id
+            secs = []
+            for k in range(rng.randint(1, 3)):
+                parts = [rng.choice(["txt", "txt", "foot", "itgt", "foot", "itgt"]) for _ in range(rng.randint(1, 3))]
+                secs.append({"label": rng.choice([None, f"lab{k}", f"lab{k}"]), "parts": parts})
+            labels = [s_["label"] for s_ in secs if s_["label"]]
+            yield {"kind": "titled", "secs": secs, "refs": [rng.choice(labels) for _ in range(rng.randint(0, 2))] if labels else [],
+                   "other_refs": [rng.choice(labels) for _ in range(rng.randint(0, 2))] if labels else [], "other_footrefs": rng.randint(0, 2)}
         for _ in range(budget // 5):
             tnames = [x for x in names if x.strip() and "\t" not in x and not x.startswith("-")]
             titles = [rng.choice(tnames) for _ in range(rng.randint(2, 6))]
             yield {"kind": "text", "titles": titles, "labels": [rng.choice(["a", "a", "b", "a-1"]) for _ in range(rng.randint(0, 4))]}
 
     def shrink_candidates(self, case):
+        if case["kind"] == "titled":
+            for i in range(len(case["secs"])):
+                if len(case["secs"]) > 1:
+                    keep = case["secs"][:i] + case["secs"][i + 1:]
+                    labs = {x["label"] for x in keep}
+                    yield {**case, "secs": keep, "refs": [r for r in case["refs"] if r in labs], "other_refs": [r for r in case["other_refs"] if r in labs]}
+            for key in ("refs", "other_refs"):
+                for i in range(len(case[key])):
+                    yield {**case, key: case[key][:i] + case[key][i + 1:]}
+            if case["other_footrefs"]:
+                yield {**case, "other_footrefs": 0}
+            return
         if case["kind"] == "repl":
             for i in range(len(case["uses"])):
                 yield {**case, "uses": case["uses"][:i] + case["uses"][i + 1:]}
@@ -172,6 +195,33 @@ class C09(core.PropertyCheck):
             p1, _ = rst.parse("\n".join(idx) + "\n", "index.txt")
             p2, _ = rst.parse("\n".join(inc) + "\n", "includes/steps.rst")
             return [p1, p2], ["index.txt"]
+        if case["kind"] == "titled":
+            lines = ["Top", "===", "", "Intro.", ""]
+            nt = 0
+            for k, sec in enumerate(case["secs"]):
+                if sec["label"]:
+                    lines += [f".. _{sec['label']}:", ""]
+                words = []
+                for part in sec["parts"]:
+                    if part == "txt":
+                        words.append(f"Part{k}")
+                    elif part == "foot":
+                        words.append("note [#]_")
+                    else:
+                        nt += 1
+                        words.append(f"_`tgt {nt}`")
+                title = f"Sec{k} " + " ".join(words)
+                lines += [title, "-" * (len(title) + 2), "", "Body.", ""]
+            for r in case["refs"]:
+                lines += [f"See :ref:`{r}` here.", ""]
+            lines += [f".. [#] note {i}" for i in range(12)] + [""]
+            other = ["Other", "=====", "", "Own note" + "".join(" [#]_" for _ in range(case["other_footrefs"])) + ".", ""]
+            for r in case["other_refs"]:
+                other += [f"Elsewhere :ref:`{r}`.", ""]
+            other += [f".. [#] other note {i}" for i in range(4)] + [""]
+            p1, _ = rst.parse("\n".join(lines) + "\n", "index.txt")
+            p2, _ = rst.parse("\n".join(other) + "\n", "other.txt")
+            return [p1, p2], ["index.txt", "other.txt"]
         if case["kind"] == "text":
             lines = []
             for i, t in enumerate(case["titles"]):
@@ -229,6 +279,8 @@ class C09(core.PropertyCheck):
 
     def bases(self, case):
         """base ids per page in document order, computed from the *inputs* (sanitiser = real glue)"""
+        if case["kind"] == "titled":
+            return [{"headings": [], "targets": [], "footnotes": 0}, {"headings": [], "targets": [], "footnotes": 0}]   # direct oracle only
         if case["kind"] == "repl":
             return [{"headings": [], "targets": [], "footnotes": 0}]   # no model counterpart: the direct oracle (uniqueness) decides
         if case["kind"] == "text":
@@ -252,7 +304,7 @@ class C09(core.PropertyCheck):
 
     # ---- model ----
     def model_request(self, case):
-        if case["kind"] == "repl":
+        if case["kind"] in ("repl", "titled"):
             return None
         b = self.bases(case)
         words = sorted({c for pg in b for s in pg["headings"] + pg["targets"] for c in s})
